@@ -546,6 +546,10 @@ def gen_C10(rng, tier):
                 add_applies(rng, c, ops, 1, mk=lambda: prog_die(rng, sigs=[SIGKILL, SIGTERM]))
             elif r < 0.9 and pc.get('timeout'):
                 add_applies(rng, c, ops, 1, mk=lambda: prog_long(rng, pc['timeout'] + rng.choice([0.3, 2.0])))
+            elif ui:
+                # (grow()/shrink() are issued by one thread, as a sequence: two concurrent shrink() calls can pick
+                # the same worker and signal it twice, which is outside what the properties quantify over)
+                add_applies(rng, c, ops, 1)
             elif r < 0.95:
                 ops.append(['grow', 1])
             else:
